@@ -535,7 +535,11 @@ func runC07(c *vh.Ctx) {
 		if err != nil || u != s || len(rest) != 0 {
 			cl := "unexplained:unquote-escape"
 			if strings.ContainsRune(s, 0xFFFD) {
-				cl = vh.CauseReplacementChar.Name
+				// attribution by repair: the same string with U+FFFD replaced survives Unquote∘EscapeString
+				s2 := strings.ReplaceAll(s, "\uFFFD", "X")
+				if u2, rest2, err2 := verifhooks.C0708Unquote([]byte(verifhooks.C0708EscapeString(s2)), false); err2 == nil && u2 == s2 && len(rest2) == 0 {
+					cl = vh.CauseReplacementChar.Name
+				}
 			}
 			c.Report(vh.Finding{Class: cl, What: fmt.Sprintf("%s: Unquote(EscapeString(%q)) = %q, %v", cl, s, u, err), Check: "oracle", Op: "Unquote∘EscapeString", Input: vh.Hex(s)})
 		}
